@@ -22,6 +22,7 @@ package main
 
 import (
 	"bytes"
+	"errors"
 	"fmt"
 	"net"
 	"os"
@@ -30,6 +31,7 @@ import (
 	"strconv"
 	"strings"
 	"sync"
+	"sync/atomic"
 	"time"
 
 	"github.com/sirupsen/logrus"
@@ -632,8 +634,98 @@ func runWorkload(seed uint64, nClients, nOps, nIn, nOut int, delay time.Duration
 	return out + "|races=" + strconv.Itoa(n) + "|sig=" + sig + "|rep=" + rep
 }
 
+// runStuck: one strand operation runs for holdMs while k pool calls (and two incoming connections' registrations) are
+// queued behind it for more than a second; Shutdown is called while they are still queued.  Every queued call must
+// return (completed or refused because the pool closed) and Shutdown must return.
+func runStuck(seed uint64, k int, holdMs int) string {
+	if hung {
+		return "S|calls=0/0|shutdown=hang"
+	}
+	r := NewRng(seed)
+	cfg := gnet.NewConfig()
+	cfg.Address = "127.0.0.1"
+	cfg.Port = 0
+	cfg.DialTimeout = time.Second
+	pool, err := gnet.NewConnectionPool(cfg, nil)
+	if err != nil {
+		panic("harness: NewConnectionPool: " + err.Error())
+	}
+	runDone := make(chan struct{})
+	go func() {
+		pool.Run() //nolint:errcheck
+		close(runDone)
+	}()
+	addr := ""
+	for i := 0; i < 400 && addr == ""; i++ {
+		addr = pool.VerifListenAddr()
+		if addr == "" {
+			time.Sleep(5 * time.Millisecond)
+		}
+	}
+	entered := make(chan struct{})
+	go pool.VerifStrand("slow", func() error { //nolint:errcheck
+		close(entered)
+		time.Sleep(time.Duration(holdMs) * time.Millisecond)
+		return nil
+	})
+	<-entered
+	var returned int32
+	var conns []net.Conn
+	for i := 0; i < k; i++ {
+		kind := r.Intn(4)
+		go func() {
+			switch kind {
+			case 0:
+				pool.Size() //nolint:errcheck
+			case 1:
+				pool.GetConnections() //nolint:errcheck
+			case 2:
+				pool.Disconnect("10.9.8.7:6000", errors.New("x")) //nolint:errcheck
+			default:
+				pool.SendMessage("10.9.8.7:6000", &pingMsg{}) //nolint:errcheck
+			}
+			atomic.AddInt32(&returned, 1)
+		}()
+	}
+	if addr != "" {
+		for i := 0; i < 2; i++ {
+			if c, err := net.DialTimeout("tcp", addr, time.Second); err == nil {
+				conns = append(conns, c) // its registration (handleConnection) queues on the strand
+			}
+		}
+	}
+	time.Sleep(time.Duration(holdMs-250) * time.Millisecond) // the calls have now been queued for more than a second
+	shutDone := make(chan struct{})
+	go func() {
+		pool.Shutdown()
+		close(shutDone)
+	}()
+	shut := "ok"
+	select {
+	case <-shutDone:
+	case <-time.After(10 * time.Second):
+		shut = "hang"
+		hung = true
+	}
+	deadline := time.Now().Add(5 * time.Second)
+	for atomic.LoadInt32(&returned) < int32(k) && time.Now().Before(deadline) {
+		time.Sleep(5 * time.Millisecond)
+	}
+	got := int(atomic.LoadInt32(&returned))
+	if got < k {
+		hung = true // goroutines are stuck on this pool: later cases would only inherit the damage
+	}
+	for _, c := range conns {
+		c.Close()
+	}
+	return fmt.Sprintf("S|calls=%d/%d|shutdown=%s", got, k, shut)
+}
+
 func c32Exec(op string) string {
 	f := strings.Split(op, " ")
+	if f[0] == "runs" && len(f) == 4 {
+		return runStuck(PU64(f[1]), int(PU64(f[2])), int(PU64(f[3])))
+	}
 	if f[0] == "runq" && len(f) == 7 {
 		// same workload, with a goroutine that also polls the exported capacity query of the pool
 		pollQuery = true
@@ -669,6 +761,13 @@ func c32Gen(r *Rng, tier string, emit func(string)) {
 	nb := 6
 	if tier == "thorough" {
 		nb = 60
+	}
+	ns := 3
+	if tier == "thorough" {
+		ns = 20
+	}
+	for i := 0; i < ns; i++ {
+		emit(fmt.Sprintf("runs %d %d %d", r.U64()%1000000, r.Range(3, 12), []int{1300, 1500, 1700}[r.Intn(3)]))
 	}
 	for i := 0; i < nb; i++ {
 		delay := []int{0, 200, 3000}[r.Intn(3)]
